@@ -223,6 +223,9 @@ func pipeScript(c PipeCfg) string {
 	}
 	fmt.Fprintf(&b, "producer = func() {\n for v in [%s] {\n  c0 <- v\n }\n close(c0)\n}\n", strings.Join(items, ", "))
 	switch c.Shape {
+	case "fn4spread":
+		// the arguments are a list spread over the four parameters at the go statement; the spawner overwrites the list's elements afterwards
+		b.WriteString("stage = func(inch, outch, incv, tag) {\n for v in inch {\n  outch <- v + incv\n }\n close(outch)\n}\n")
 	case "fn4elem":
 		// the increment is read from a list element at the go statement; the spawner overwrites that element afterwards
 		b.WriteString("inc = [10]\nstage = func(inch, outch, incv, tag) {\n for v in inch {\n  outch <- v + incv\n }\n close(outch)\n}\n")
@@ -241,6 +244,10 @@ func pipeScript(c PipeCfg) string {
 			fmt.Fprintf(&b, "go stage(c%d, c%d, inc[0], %d)\n", k-1, k, k)
 		}
 		b.WriteString("inc[0] = -1000\n")
+	} else if c.Shape == "fn4spread" {
+		for k := 1; k <= c.NS; k++ {
+			fmt.Fprintf(&b, "a%d = [c%d, c%d, 10, %d]\ngo stage(a%d...)\na%d[2] = -1000\na%d[1] = nil\n", k, k-1, k, k, k, k, k)
+		}
 	} else if c.Shape == "goanon" {
 		for k := 1; k <= c.NS; k++ {
 			fmt.Fprintf(&b, "spawn(c%d, c%d)\n", k-1, k)
